@@ -372,7 +372,7 @@ func (m *ConnectMessage) Decode(src []byte) (int, error) {
 	}
 	total += n
 
-	if n, err = m.decodeMessage(src[total:]); err != nil {
+	if n, err = m.decodeMessage(src[total : total+int(m.remlen)]); err != nil {
 		return total + n, err
 	}
 	total += n
@@ -498,6 +498,10 @@ func (m *ConnectMessage) decodeMessage(src []byte) (int, error) {
 	total += n
 	if err != nil {
 		return total, err
+	}
+
+	if len(src[total:]) < 2 {
+		return total, fmt.Errorf("connect/decodeMessage: Insufficient buffer size. Expecting %d, got %d", 2, len(src[total:]))
 	}
 
 	m.version = src[total]
